@@ -192,6 +192,11 @@ def c17(ctx, api):
             'piped spelling, on documents that also hold what a name split at dots or brackets would find', st, summ)
     st, summ = api['run_tlc_to_harness'](ctx, 'probe', 'GenProbe', cfg(constants={'Emit': 'TRUE', 'Prop': '"C17"'}), timeout=1500, harness_args=['-timeout', '60s'])
     acc.add('GenProbe: single inputs with a pinned outcome from the audit rounds', st, summ)
+    st, summ = api['run_tlc_to_harness'](ctx, 'tsweep', 'GenTSweep', cfg(constants={'Emit': 'TRUE', 'Prop': '"C17"', 'Only': '{"pidx-", "a-", "arr-", "elem-", "flatten", "proj-"}', 'To': 9000 if thorough else 1100}),
+                                         timeout=1500, harness_args=['-timeout', '600s'])
+    acc.add('GenTSweep valid-index families: the last element of an array of n + 1 elements reached through a filter / wildcard / flatten / slice projection '
+            'ended by a pipe or parentheses, through sort, sort_by, map, a multi-select, for every n = 0..%d (the index crosses every integer-width boundary '
+            'while it is still a VALID index); plus the array families' % (9000 if thorough else 1100), st, summ)
     return acc.result(RULE_PINNED + '; a pair case is non-trivial when both sides have one common pinned outcome, '
                       'in which case the harness also demands that the two real results are equal',
                       extra={'schemata': ['S1 P sels = P | [*] sels', 'S2 x[*].e = map(&e,x)[*]', 'S4 a.b = a | b',
@@ -328,7 +333,11 @@ def c02(ctx, api):
             'integrality and value decided by Decimal.tla', st, summ)
     st, summ = api['run_tlc_to_harness'](ctx, 'probe', 'GenProbe', cfg(constants={'Emit': 'TRUE', 'Prop': '"C02"'}), timeout=1500, harness_args=['-timeout', '30s'])
     acc.add('GenProbe: single inputs with a pinned outcome from the audit round (recorded findings, re-observed on every run)', st, summ)
-    return acc.result(RULE_PINNED, extra={'model_checks': ['UnknownFunction', 'ArityIffOutOfRange', 'NoArityWhenInRange',
+    st, summ = api['run_tlc_to_harness'](ctx, 'tsweep', 'GenTSweep', cfg(constants={'Emit': 'TRUE', 'Prop': '"C02"', 'Only': '{"findoff-", "find", "err-", "a-", "s-", "o-", "padl-", "split-", "repl-", "ends-"}', 'To': 9000 if thorough else 1100}),
+                                         timeout=1500, harness_args=['-timeout', '600s'])
+    acc.add('GenTSweep function families: every array / object / string function on inputs of size n, find_first / find_last with start and end offsets '
+            'behind a multi-byte character that follows n letters, failing calls whose text has n characters, every n = 0..%d' % (9000 if thorough else 1100), st, summ)
+    return acc.result(RULE_PINNED, extra={'model_checks': ['UnknownFunction', 'ArityIffOutOfRange', 'NoArityWhenInRange', 'TemplateLemma',
                                                            'TypeErrorIffOutsideSignature', 'OnlyDynamicCategories']})
 
 
